@@ -1,4 +1,448 @@
+//! C02 - frontend calls reach the backend handler with identical arguments and files.
+//!
+//! Real `Frontend` <-> real `BackendReqHandler` (served in its own thread, handler wrapped in the
+//! library's `Mutex<T>` adapter) on a socketpair. For each call the recording handler's log must
+//! have grown by exactly one entry with equal operation, values, payload bytes and descriptor
+//! identities - already at return time whenever a reply / negotiated ack is awaited. Calls the
+//! API must reject locally are issued against a raw byte-counting peer.
+
+use crate::ops::{self, FeOp, Lent, ReplyKind, VAddr};
+use crate::rec::{Call, Script};
+use crate::util::{self, Conn};
 use crate::Cfg;
-pub fn run(_cfg: &Cfg) {
-    common::report::inconclusive("not implemented");
+use common::spec::{self, Region};
+use common::sys;
+use common::{jo, report, Rng, J};
+use std::cell::RefCell;
+use std::os::unix::io::{AsRawFd, RawFd};
+use std::sync::RwLock;
+
+use vhost::vhost_user::message::*;
+use vhost::vhost_user::{Frontend, VhostUserFrontend};
+use vhost::{VhostBackend, VhostBackendMut, VhostUserDirtyLogRegion, VhostUserMemoryRegionInfo, VringConfigData};
+use vmm_sys_util::eventfd::EventFd;
+
+/// Thin forwarder so that the library's `RwLock<T: VhostBackendMut>` / `RefCell<T>` adapters are
+/// on the call path.
+struct Fwd(Frontend);
+
+impl VhostBackendMut for Fwd {
+    fn get_features(&mut self) -> vhost::Result<u64> {
+        self.0.get_features()
+    }
+    fn set_features(&mut self, features: u64) -> vhost::Result<()> {
+        self.0.set_features(features)
+    }
+    fn set_owner(&mut self) -> vhost::Result<()> {
+        self.0.set_owner()
+    }
+    fn reset_owner(&mut self) -> vhost::Result<()> {
+        self.0.reset_owner()
+    }
+    fn set_mem_table(&mut self, regions: &[VhostUserMemoryRegionInfo]) -> vhost::Result<()> {
+        self.0.set_mem_table(regions)
+    }
+    fn set_log_base(&mut self, base: u64, region: Option<VhostUserDirtyLogRegion>) -> vhost::Result<()> {
+        self.0.set_log_base(base, region)
+    }
+    fn set_log_fd(&mut self, fd: RawFd) -> vhost::Result<()> {
+        self.0.set_log_fd(fd)
+    }
+    fn set_vring_num(&mut self, queue_index: usize, num: u16) -> vhost::Result<()> {
+        self.0.set_vring_num(queue_index, num)
+    }
+    fn set_vring_addr(&mut self, queue_index: usize, config_data: &VringConfigData) -> vhost::Result<()> {
+        self.0.set_vring_addr(queue_index, config_data)
+    }
+    fn set_vring_base(&mut self, queue_index: usize, base: u16) -> vhost::Result<()> {
+        self.0.set_vring_base(queue_index, base)
+    }
+    fn get_vring_base(&mut self, queue_index: usize) -> vhost::Result<u32> {
+        self.0.get_vring_base(queue_index)
+    }
+    fn set_vring_call(&mut self, queue_index: usize, fd: &EventFd) -> vhost::Result<()> {
+        self.0.set_vring_call(queue_index, fd)
+    }
+    fn set_vring_kick(&mut self, queue_index: usize, fd: &EventFd) -> vhost::Result<()> {
+        self.0.set_vring_kick(queue_index, fd)
+    }
+    fn set_vring_err(&mut self, queue_index: usize, fd: &EventFd) -> vhost::Result<()> {
+        self.0.set_vring_err(queue_index, fd)
+    }
+}
+
+#[derive(Clone, Copy, Debug)]
+struct Cf {
+    need_reply: bool,
+    reply_ack: bool,
+    adapter: u8, // 0 direct, 1 RwLock, 2 RefCell
+}
+
+fn session(c: Cf, queue_num: u64) -> Conn {
+    let mut script = util::full_script();
+    script.queue_num = queue_num;
+    let mut cn = util::conn(script, queue_num.max(8));
+    let pf = if c.reply_ack { ops::ALL_PF } else { ops::ALL_PF & !spec::PF_REPLY_ACK };
+    util::negotiate(&mut cn.fe, spec::VIRTIO_F_PROTOCOL_FEATURES, Some(pf)).expect("negotiate");
+    if c.need_reply {
+        cn.fe.set_hdr_flags(VhostUserHeaderFlag::NEED_REPLY);
+    }
+    // barrier: the (un-awaited) SET_PROTOCOL_FEATURES must have been handled before we snapshot
+    cn.fe.get_features().expect("barrier");
+    cn
+}
+
+fn log_len(cn: &Conn) -> usize {
+    cn.be.lock().unwrap().log.len()
+}
+
+/// Issue one accepted call and check the handler log. Returns false when the session is unusable.
+fn call_case(cfg: &Cfg, cn: &mut Conn, c: Cf, op: &FeOp, kinds: u64, case: &str) -> bool {
+    let before = log_len(cn);
+    let mut lent = Lent { kinds, ..Lent::default() };
+    let out = match c.adapter {
+        1 => {
+            let l = RwLock::new(Fwd(cn.fe.clone()));
+            op.exec_vb(&l, &mut lent).unwrap_or_else(|| op.exec(&mut cn.fe, &mut lent))
+        }
+        2 => {
+            let l = RefCell::new(Fwd(cn.fe.clone()));
+            op.exec_vb(&l, &mut lent).unwrap_or_else(|| op.exec(&mut cn.fe, &mut lent))
+        }
+        _ => op.exec(&mut cn.fe, &mut lent),
+    };
+    let kind = op.reply_kind(true);
+    let eff_reply_ack = if let FeOp::SetProtocolFeatures(v) = op { v & spec::PF_REPLY_ACK != 0 } else { c.reply_ack };
+    let awaited = match kind {
+        ReplyKind::Ack => eff_reply_ack && c.need_reply,
+        ReplyKind::Nothing => false,
+        _ => true,
+    };
+    report::eval(1);
+    report::count(&format!("op.{}", op.name()), 1);
+    let (m, args, bytes, nf) = op.expected_call();
+    report::distinct(report::hash_mix(
+        report::hash_str(&format!("{}:{}{}{}", m, c.need_reply as u8, c.reply_ack as u8, c.adapter)),
+        report::hash_bytes(&op.wire(true).0),
+    ));
+    let at_return: Vec<Call> = cn.be.lock().unwrap().log[before..].to_vec();
+    let d = |what: &str, log: &[Call]| {
+        jo! {"what" => what, "op" => op.j(), "cfg" => format!("{c:?}"), "result" => out.j(), "awaited" => awaited,
+        "handler_log" => log.iter().map(|c| c.j()).collect::<Vec<J>>(),
+        "expected" => jo!{"method" => m, "args" => args.iter().map(|a| J::x64(*a)).collect::<Vec<J>>(), "bytes" => J::hex(&bytes), "nfds" => nf},
+        "lent" => lent.idents.iter().map(|i| i.j()).collect::<Vec<J>>()}
+    };
+    if !out.ok {
+        report::violation(&format!("C02:{}:accepted-call-failed", op.name()), d("an accepted call against a succeeding handler returned an error", &at_return), cfg.replay(case));
+        return false;
+    }
+    if awaited && at_return.len() != 1 {
+        report::violation(&format!("C02:{}:not-invoked-before-return", op.name()), d("handler entry missing when the awaited call returned", &at_return), cfg.replay(case));
+        return false;
+    }
+    // barrier for un-awaited calls: a reply-bearing round trip orders everything before it
+    let mut log = at_return;
+    if !awaited {
+        if cn.fe.get_features().is_err() {
+            report::violation(&format!("C02:{}:session-broken", op.name()), d("barrier round trip failed after the call", &log), cfg.replay(case));
+            return false;
+        }
+        let mut all: Vec<Call> = cn.be.lock().unwrap().log[before..].to_vec();
+        // the barrier's own entry
+        if all.last().map(|c| c.method) == Some("get_features") {
+            all.pop();
+        }
+        log = all;
+    }
+    if log.len() != 1 {
+        report::violation(&format!("C02:{}:invocation-count", op.name()), d("exactly one handler invocation expected", &log), cfg.replay(case));
+        return false;
+    }
+    let e = &log[0];
+    let is_sock = matches!(op, FeOp::SetBackendReqFd);
+    let want_ids: Vec<_> = if matches!(op, FeOp::SetDeviceStateFd(..)) { lent.given.clone() } else { lent.idents.iter().take(nf).cloned().collect() };
+    let ids_ok = is_sock
+        || (e.fds.len() == nf
+            && e.fds.iter().zip(want_ids.iter()).all(|((num, id), want)| id.as_ref() == Some(want) && !lent.raw.contains(num)));
+    if e.method != m || e.args != args || e.bytes != bytes || !ids_ok {
+        let what = if e.method != m { "operation" } else if e.args != args { "argument-values" } else if e.bytes != bytes { "payload-bytes" } else { "descriptors" };
+        report::violation(&format!("C02:{}:{}", op.name(), what), d("handler saw something else than the caller passed", &log), cfg.replay(case));
+        return false;
+    }
+    if is_sock {
+        // the Backend handed to the handler must talk over the socket that was passed
+        let b = cn.be.lock().unwrap().backend.take();
+        let peer = &lent.socks[1];
+        let ok = b.is_some_and(|b| {
+            b.set_shared_object_flag(true);
+            let u = ops::uuid_msg(&[7u8; 16]);
+            use vhost::vhost_user::VhostUserFrontendReqHandler;
+            let _ = b.shared_object_add(&u);
+            sys::inq(peer.as_raw_fd()) == 12 + 16
+        });
+        if !ok {
+            report::violation("C02:set_backend_req_fd:descriptors", d("the backend-request channel is not the socket that was passed", &log), cfg.replay(case));
+            return false;
+        }
+    }
+    if !lent.intact() {
+        report::violation(&format!("C02:{}:lent-descriptor-closed", op.name()), d("a descriptor lent for transmission no longer refers to the same object", &log), cfg.replay(case));
+        return false;
+    }
+    report::sample(op.name(), jo! {"op" => op.j(), "cfg" => format!("{c:?}"), "handler_entry" => e.j()});
+    // keep descriptor usage bounded
+    {
+        let mut g = cn.be.lock().unwrap();
+        g.held.clear();
+        g.returned.clear();
+    }
+    true
+}
+
+fn accepted_calls(cfg: &Cfg, rng: &mut Rng) {
+    let n = cfg.pick(25, 300);
+    let mut cfgs = Vec::new();
+    for nr in [false, true] {
+        for ra in [false, true] {
+            for ad in 0..3u8 {
+                cfgs.push(Cf { need_reply: nr, reply_ack: ra, adapter: ad });
+            }
+        }
+    }
+    for (ci, c) in cfgs.iter().enumerate() {
+        if !cfg.mine(ci as u64) {
+            continue;
+        }
+        let mut cn = session(*c, 256);
+        // one long session: every call sits at a random position after random earlier calls
+        let mut order: Vec<u32> = Vec::new();
+        for k in 0..ops::N_OP_KINDS {
+            for _ in 0..n {
+                order.push(k);
+            }
+        }
+        rng.shuffle(&mut order);
+        for kind in order {
+            let op = ops::rand_op(rng, 256, Some(kind));
+            if op.locally_invalid(256) {
+                continue;
+            }
+            // calls that change what later calls may do run on their own short session
+            let scratch = matches!(op, FeOp::SetFeatures(_) | FeOp::SetProtocolFeatures(_) | FeOp::GetQueueNum | FeOp::SetLogBase(..));
+            if matches!(op, FeOp::SetLogFd) {
+                report::observe("SET_LOG_FD:no-backend-handler", J::Null);
+                continue;
+            }
+            let case = format!("accepted:{ci}");
+            if scratch {
+                let mut c2 = session(*c, 256);
+                // position in session: a few random earlier calls
+                for _ in 0..rng.below(4) {
+                    let k = *rng.pick(&[2u32, 7, 9, 10, 18, 25]);
+                    let pre = ops::rand_op(rng, 256, Some(k));
+                    if !pre.locally_invalid(256) {
+                        let _ = call_case(cfg, &mut c2, *c, &pre, 0, &case);
+                    }
+                }
+                call_case(cfg, &mut c2, *c, &op, rng.below(5), &case);
+                let _ = c2.finish();
+                continue;
+            }
+            if !call_case(cfg, &mut cn, *c, &op, rng.below(5), &case) {
+                let _ = cn.finish();
+                cn = session(*c, 256);
+            }
+        }
+        let (_, results) = cn.finish();
+        report::count("sessions", 1);
+        if let Some(bad) = results.iter().find(|r| *r != "Ok" && !r.contains("Disconnected") && !r.contains("PartialMessage")) {
+            report::observe("server-loop-ended-with", J::S(bad.clone()));
+        }
+    }
+}
+
+/// Queue indexes up to the maximum learnt from GET_QUEUE_NUM (the wire format of the three
+/// descriptor-carrying ring messages has only 8 index bits).
+fn queue_index_range(cfg: &Cfg, rng: &mut Rng) {
+    for (qi, qn) in [2u64, 255, 256, 257, 1024, 0x8000].iter().enumerate() {
+        if !cfg.mine(qi as u64 + 100) {
+            continue;
+        }
+        let c = Cf { need_reply: true, reply_ack: true, adapter: 0 };
+        let mut cn = session(c, *qn);
+        if cn.fe.get_queue_num().ok() != Some(*qn) {
+            report::inconclusive("get_queue_num did not return the scripted value");
+            continue;
+        }
+        let mut idxs: Vec<usize> = vec![0, 1, (*qn as usize) - 1];
+        for i in [254usize, 255, 256, 257, 511, 512, 1023, 0x7fff] {
+            if (i as u64) < *qn {
+                idxs.push(i);
+            }
+        }
+        for _ in 0..cfg.pick(8, 64) {
+            idxs.push(rng.below(*qn) as usize);
+        }
+        for i in idxs {
+            for which in 0..6 {
+                let op = match which {
+                    0 => FeOp::SetVringCall(i),
+                    1 => FeOp::SetVringKick(i),
+                    2 => FeOp::SetVringErr(i),
+                    3 => FeOp::SetVringNum(i, 64),
+                    4 => FeOp::SetVringBase(i, 3),
+                    _ => FeOp::SetVringEnable(i, true),
+                };
+                // indexes the wire format cannot carry must be refused locally (no bytes) ...
+                if i > 255 && which < 3 {
+                    let fc = crate::c01::FeCfg { need_reply: false, reply_ack: false, log_shmfd: true };
+                    let (mut f, peer) = crate::c01::setup_frontend(fc, *qn);
+                    let mut lent = Lent::default();
+                    let out = op.exec(&mut f, &mut lent);
+                    let mut m = spec::read_msg(peer.as_raw_fd(), if sys::inq(peer.as_raw_fd()) > 0 { 500 } else { 0 }, 1 << 16);
+                    report::eval(1);
+                    report::distinct_str(&format!("qidx:{qn}:{i}:{which}"));
+                    if out.ok || !m.hdr_bytes.is_empty() {
+                        report::violation(
+                            &format!("C02:{}:index-above-255", op.name()),
+                            jo! {"what" => "queue index does not fit the 8 index bits of the message (bit 8 = no-descriptor flag), yet the call was accepted and written",
+                            "max_queue_num" => *qn, "op" => op.j(), "result" => out.j(), "wire_hdr" => J::hex(&m.hdr_bytes), "wire_body" => J::hex(&m.body), "fds" => m.fds_first.len()},
+                            cfg.replay(&format!("qidx:{qi}")),
+                        );
+                    }
+                    m.close_fds();
+                    continue;
+                }
+                // ... everything else is an accepted call
+                if !call_case(cfg, &mut cn, c, &op, 0, &format!("qidx:{qi}")) {
+                    let _ = cn.finish();
+                    cn = session(c, *qn);
+                    let _ = cn.fe.get_queue_num();
+                }
+            }
+        }
+        let _ = cn.finish();
+    }
+}
+
+/// Calls the API must reject locally: nothing may reach the wire.
+fn rejected_calls(cfg: &Cfg, rng: &mut Rng) {
+    let big: Vec<Region> = (0..33).map(|_| ops::rand_region(rng)).collect();
+    let zero = Region { gpa: 0x1000, size: 0, uaddr: 0x2000, off: 0 };
+    let good = ops::rand_region(rng);
+    let mut cases: Vec<(String, FeOp)> = vec![
+        ("empty-region-list".into(), FeOp::SetMemTable(vec![])),
+        ("33-regions".into(), FeOp::SetMemTable(big)),
+        ("zero-sized-region".into(), FeOp::SetMemTable(vec![good, zero])),
+        ("zero-sized-region-add".into(), FeOp::AddMemRegion(zero)),
+        ("zero-sized-region-remove".into(), FeOp::RemoveMemRegion(zero)),
+        ("nil-uuid".into(), FeOp::GetSharedObject([0; 16])),
+        ("max-uuid".into(), FeOp::GetSharedObject([0xff; 16])),
+        ("vring-addr-undefined-flags".into(), FeOp::SetVringAddr(0, VAddr { flags: 2, desc: 0, used: 0, avail: 0, log: None })),
+        ("vring-addr-undefined-flags-high".into(), FeOp::SetVringAddr(0, VAddr { flags: 0x8000_0001, desc: 0, used: 0, avail: 0, log: None })),
+        ("inflight-zero-size".into(), FeOp::SetInflightFd(0, 0, 1, 1)),
+        ("inflight-zero-queues".into(), FeOp::SetInflightFd(4096, 0, 0, 1)),
+        ("inflight-zero-queue-size".into(), FeOp::SetInflightFd(4096, 0, 1, 0)),
+        ("config-set-too-long".into(), FeOp::SetConfig { offset: 0, flags: 0, buf: vec![0; 0x1001] }),
+        ("config-set-empty".into(), FeOp::SetConfig { offset: 0, flags: 0, buf: vec![] }),
+    ];
+    // invalid config windows over the whole space
+    let mut windows: Vec<(u32, u32, u32)> = vec![(0, 0, 0), (0x1000, 1, 0), (0xfff, 2, 0), (0, 0x1001, 0), (u32::MAX, 1, 0), (1, u32::MAX, 0), (0, 1, 4), (0, 1, 0x8000_0000)];
+    for _ in 0..cfg.pick(100, 2000) {
+        let (o, s, f) = (rng.interesting64() as u32, rng.interesting64() as u32, rng.below(8) as u32);
+        if !spec::valid::config(o, s, f) {
+            windows.push((o, s, f));
+        }
+    }
+    for (o, s, f) in windows {
+        cases.push(("invalid-config-window-get".into(), FeOp::GetConfig { offset: o, size: s, flags: f, buf: vec![0; (s as usize).min(8192)] }));
+        if s <= 0x1000 && !spec::valid::config(o, s, f) {
+            cases.push(("invalid-config-window-set".into(), FeOp::SetConfig { offset: o, flags: f, buf: vec![0; s as usize] }));
+        }
+    }
+    // queue index >= known maximum, for several maxima
+    let mut maxqs = vec![1u64, 2, 8, 255, 256];
+    maxqs.push(rng.range(1, 300));
+    for maxq in maxqs {
+        for i in [maxq, maxq + 1, maxq * 2 + 7, 0x7fff_ffff, usize::MAX as u64] {
+            let i = i as usize;
+            for op in [
+                FeOp::SetVringNum(i, 8),
+                FeOp::SetVringBase(i, 0),
+                FeOp::GetVringBase(i),
+                FeOp::SetVringCall(i),
+                FeOp::SetVringKick(i),
+                FeOp::SetVringErr(i),
+                FeOp::SetVringEnable(i, true),
+                FeOp::SetVringAddr(i, VAddr { flags: 0, desc: 0x1000, used: 0x2000, avail: 0x3000, log: None }),
+            ] {
+                cases.push((format!("queue-index-beyond-max:{maxq}"), op));
+            }
+        }
+    }
+    for (ci, (class, op)) in cases.iter().enumerate() {
+        if !cfg.mine(ci as u64) {
+            continue;
+        }
+        let maxq = class.strip_prefix("queue-index-beyond-max:").and_then(|s| s.parse::<u64>().ok()).unwrap_or(8);
+        if !op.locally_invalid(maxq) {
+            continue;
+        }
+        let c = crate::c01::FeCfg { need_reply: ci % 2 == 0, reply_ack: true, log_shmfd: true };
+        let (mut f, peer) = crate::c01::setup_frontend(c, maxq);
+        let mut lent = Lent::default();
+        // negative mmap handle is a separate class below
+        let out = op.exec(&mut f, &mut lent);
+        let bytes = sys::inq(peer.as_raw_fd());
+        report::eval(1);
+        let cls = class.split(':').next().unwrap_or(class);
+        report::count(&format!("rejected.{cls}"), 1);
+        report::distinct(report::hash_mix(report::hash_str(class), report::hash_bytes(format!("{op:?}").as_bytes())));
+        if out.ok || bytes != 0 {
+            report::violation(
+                &format!("C02:{}:{}:not-rejected-locally", op.name(), cls),
+                jo! {"class" => class.as_str(), "op" => op.j(), "bytes_on_wire" => bytes, "result" => out.j(), "max_queue_num" => maxq},
+                cfg.replay(&format!("rejected:{ci}")),
+            );
+        }
+        report::sample(&format!("rejected.{cls}"), jo! {"rejected_call" => op.j(), "class" => class.as_str(), "bytes_on_wire" => bytes, "result" => out.err.as_str()});
+    }
+    // negative descriptor in a region
+    if cfg.mine(7) {
+        let c = crate::c01::FeCfg { need_reply: false, reply_ack: true, log_shmfd: true };
+        let (mut f, peer) = crate::c01::setup_frontend(c, 8);
+        let r = VhostUserMemoryRegionInfo { guest_phys_addr: 0, memory_size: 0x1000, userspace_addr: 0x1000, mmap_offset: 0, mmap_handle: -1 };
+        let r1 = f.set_mem_table(&[r]);
+        let r2 = f.add_mem_region(&r);
+        let bytes = sys::inq(peer.as_raw_fd());
+        report::eval(2);
+        report::distinct_str("negative-fd");
+        if r1.is_ok() || r2.is_ok() || bytes != 0 {
+            report::violation("C02:set_mem_table:negative-descriptor:not-rejected-locally", jo! {"bytes_on_wire" => bytes, "set_mem_table" => format!("{r1:?}"), "add_mem_region" => format!("{r2:?}")}, cfg.replay("rejected:neg"));
+        }
+    }
+}
+
+pub fn run(cfg: &Cfg) {
+    report::assume("handler-side expectation (FeOp::expected_call) states 'identical arguments' per operation; SET_LOG_BASE is exercised in its supported shmfd form; SET_LOG_FD has no backend handler and is observed only");
+    let mut rng = Rng::new(cfg.seed.wrapping_mul(0xc02).wrapping_add(cfg.shard));
+    let only = cfg.only.clone().unwrap_or_default();
+    let part = only.split(':').next().unwrap_or("").to_string();
+    let mut c = cfg.clone();
+    if let Some((_, idx)) = only.split_once(':') {
+        if let Ok(i) = idx.parse::<u64>() {
+            c.only = None;
+            c.nshards = u64::MAX;
+            c.shard = if part == "qidx" { i + 100 } else { i };
+        }
+    }
+    if part.is_empty() || part == "all" || part == "accepted" {
+        accepted_calls(&c, &mut rng);
+    }
+    if part.is_empty() || part == "all" || part == "qidx" {
+        queue_index_range(&c, &mut rng);
+    }
+    if part.is_empty() || part == "all" || part == "rejected" {
+        rejected_calls(&c, &mut rng);
+    }
 }
